@@ -1,5 +1,5 @@
 """C01 -- compiled execution = definitional semantics (CalcSem judged by TLC)."""
-import vlib, gens, semcheck
+import vlib, gens, semcheck, vmcheck, findings
 from astlib import walk
 
 
@@ -21,8 +21,14 @@ def run(tier, replay=None):
         fams = [("contexts-depth1", gens.context_sessions(e1, 1), ("value",)),
                 ("contexts-depth2", gens.context_sessions(gens.exprs_depth2(), 200000), ("value",)),
                 ("random-sessions", gens.random_sessions(6000, seed, "c01", first_id=400000), ("value",))]
-    semcheck.run_families(ck, fams, nontrivial)
+    vs = semcheck.run_families(ck, fams, nontrivial)
+    # translation validation + instruction-level trace validation on a slice of the same sessions (CalcVM.tla)
+    sl = [v.session for v in vs if v.status == "accept"]
+    sl = sl[seed % 3::3][:900] if tier == "quick" else sl[seed % 2::2][:9000]
+    n, agree, viol = vmcheck.validate(ck, sl, "CalcVM: real bytecode on the intended VM = CalcSem; real instruction traces followed")
+    for desc, case, kind in viol:
+        ck.violation(desc, case)
     ck.cov["rule"] = ("sessions = enumerated expression x embedding-context products plus seeded random typed sessions; distinct by AST digest; "
                       "non-trivial = some statement uses >= 3 distinct node kinds and the session is specified (not Unspecified) to its end")
-    ck.assumptions += ["CalcSem.tla as evaluated by TLC is the oracle", "values outside the model (|int| >= 2^30, non-dyadic floats) are Unspecified and only checked for no-crash"]
+    ck.assumptions += ["CalcSem.tla as evaluated by TLC is the oracle", "CalcVM.tla is the intended machine for the real compiler's bytecode (translation validation) and for the real VM's instruction trace", "values outside the model (|int| >= 2^30, non-dyadic floats) are Unspecified and only checked for no-crash"]
     return ck.finish()
